@@ -431,6 +431,31 @@ def r_linestrip(P, chk):
     if not retyped:
         raise AnalysisBroken("parser.c: no line retyping found")
     f = P.func("strip_line_tokens_from_block", "mmd.c")
+    # (b) no line kind is unwrapped in one context and kept raw in another: a kind the function knows how to unwrap
+    #     must be unwrapped or retyped (`l->type = ...`) on every path
+    retype_blocks = set()
+    pos = f.cfg.positions()
+    for x in f.walk():
+        if x["k"] == "BinaryOperator" and x["op"] == "=" and key(x["c"][0]) == "l->type" and x["i"] in pos:
+            retype_blocks.add(pos[x["i"]][0])
+    n_kinds = 0
+    for v in range(1, T.nterminal):
+        name = T.name(v)
+        if not name.startswith("LINE_"):
+            continue
+        n_kinds += 1
+        blocks = edpe_blocks(f, "l->type", v, blocked=retype_blocks)
+        calls = [(n.get("callee"), [key(a) for a in n["c"][1:]]) for n in block_nodes(f, blocks - retype_blocks) if n["k"] == "CallExpr"]
+        kept = any(c == "token_append_child" and len(a) > 1 and a[1] == "l" for c, a in calls)
+        unwrapped = any(c == "token_append_child" and len(a) > 1 and a[1] == "l->child" for c, a in calls)
+        ok = not (kept and unwrapped)
+        chk.obligation(rid, "%s is handled uniformly (%s)" % (name, "unwrapped" if unwrapped else ("kept" if kept else "retyped/other")), ok,
+                       nontrivial=unwrapped, sample=False)
+        if not ok:
+            chk.violation(rid, "linestrip:mixed:%s" % name, f.where(), "strip_line_tokens_from_block unwraps %s lines in some blocks but keeps "
+                          "them as raw line tokens in others: no writer has a branch for that line kind ('Unknown token type: %d', text "
+                          "dropped)" % (name, v))
+    chk.floor(rid, n_kinds, 20, "line kinds (parser terminals)")
     for v, line in sorted(retyped.items()):
         blocks = edpe_blocks(f, "l->type", v)
         calls = [(n.get("callee"), [key(a) for a in n["c"][1:]]) for n in block_nodes(f, blocks) if n["k"] == "CallExpr"]
